@@ -158,6 +158,10 @@ def main(argv=None):
             for k, v in fallbacks.items():
                 print(f'NOTE {prop}: translated site {k} fell back to the hand-written model ({v}); correspondence searched with the thorough generators')
         cases += list(mod.generate(rng, gen_tier))
+        if tier == 'thorough':
+            # the thorough tier proper (not the drift-triggered search of the quick tier) draws further rounds of cases
+            for r in range(int(os.environ.get('VERIF_THOROUGH_ROUNDS', '3')) - 1):
+                cases += [c for c in mod.generate(random.Random(seed * 1000003 + 7919 * (r + 1)), 'thorough')]
     outcomes = []
     disagreements = []
     viols = []
